@@ -253,6 +253,15 @@ def drive(check, tier, seed, workers=None, budget_s=None):
     for key, (e, n, sigs) in per_entry.items():
         print('KNOWN-FINDING: property=%s %s [listed as %s; seen %d times under %d signature(s); witness %s]' % (
             check.ID, e.get('what', ''), key, n, len(sigs), e.get('replay', '-')))
+    if os.environ.get('VERIF_SAVE_KNOWN') == '1':
+        # maintenance aid: (re)generate minimised witness replays for the listed findings
+        for sig, (e, n) in known_seen.items():
+            v = sorted(by_sig[sig], key=lambda v: len(json.dumps(v['spec'], default=str)))[0]
+            try:
+                spec, _ = shrink(check, v['spec'], sig, budget_s=30.0)
+            except Exception:
+                spec = v['spec']
+            print('known-witness: %s -> %s' % (sig, write_replay(check, spec, v, seed, tier)))
     exit_code = 0
     reported = 0
     for sig, vs in unknown:
